@@ -155,10 +155,17 @@ class DSDLDefinition(ReadableDSDLFile):
         :raises InvalidDefinitionError: If the file does not exist.
         """
         root_path = cls._infer_path_to_root_from_first_found(dsdl_path, valid_dsdl_roots)
-        if not dsdl_path.is_absolute():
-            dsdl_path_resolved = (root_path.parent / dsdl_path).resolve(strict=False)
-        else:
+        if dsdl_path.is_absolute():
             dsdl_path_resolved = dsdl_path.resolve(strict=False)
+        else:
+            try:
+                # The target is already given relative to the same location as the root
+                # (e.g., root "workspace/types/animals" and target "workspace/types/animals/felines/Tabby.1.0.dsdl").
+                _ = dsdl_path.relative_to(root_path)
+                dsdl_path_resolved = dsdl_path.resolve(strict=False)
+            except ValueError:
+                # The target is given relative to the parent of the root (e.g., "animals/felines/Tabby.1.0.dsdl").
+                dsdl_path_resolved = (root_path.parent / dsdl_path).resolve(strict=False)
         return cls(dsdl_path_resolved, root_path)
 
     def __init__(self, file_path: Path, root_namespace_path: Path):
